@@ -102,6 +102,7 @@ type Opts struct {
 	MaxNear64k int  // how many chunks around the 2^16 snappy block boundary (default 2)
 	Big        int  // how many multi-megabyte chunks may appear (default 0)
 	ForgedOnly bool // no genuine chunks (then every chunk is in a collision pool)
+	GenuineOnly bool // content-hash addresses only
 	// WithRefs: chunks carry synthetic references (see EncodeRefs) to earlier chunks of the set.
 	WithRefs bool
 }
@@ -112,11 +113,12 @@ type Set struct {
 	Prefixes []uint64 // the collision pool of this case
 	byAddr   map[hash.Hash]int
 	by16     map[[16]byte]struct{}
+	contents map[string]struct{} // contents are pairwise distinct too (see Grow)
 	nextOrd  uint32
 }
 
 func NewSet() *Set {
-	return &Set{byAddr: map[hash.Hash]int{}, by16: map[[16]byte]struct{}{}}
+	return &Set{byAddr: map[hash.Hash]int{}, by16: map[[16]byte]struct{}{}, contents: map[string]struct{}{}}
 }
 
 func key16(h hash.Hash) (k [16]byte) { copy(k[:], h[:16]); return }
@@ -274,6 +276,11 @@ func (s *Set) Grow(t *rapid.T, label string, n int, o Opts) []Chunk {
 	for i := 0; i < n; i++ {
 		l := fmt.Sprintf("%s.c%d", label, len(s.Chunks))
 		data, kind := GenData(t, l, s.nextOrd, &near, &big)
+		// contents are pairwise distinct within a set: some read paths (archive getMany) identify a
+		// chunk by its content hash, and equal bytes under two addresses would hide a wrong-record bug
+		if _, dup := s.contents[string(data)]; dup {
+			data = binary.BigEndian.AppendUint32(append([]byte{}, data...), 0x80000000|s.nextOrd)
+		}
 		s.nextOrd++
 		c := Chunk{Data: data, Kind: kind}
 		if o.WithRefs && len(s.Chunks) > 0 && kind != "big" {
@@ -285,7 +292,8 @@ func (s *Set) Grow(t *rapid.T, label string, n int, o Opts) []Chunk {
 		if o.WithRefs {
 			c.Data = EncodeRefs(c.Refs, c.Data)
 		}
-		forged := o.ForgedOnly || rapid.IntRange(0, 9).Draw(t, l+".forged") < 7
+		s.contents[string(c.Data)] = struct{}{}
+		forged := !o.GenuineOnly && (o.ForgedOnly || rapid.IntRange(0, 9).Draw(t, l+".forged") < 7)
 		if forged {
 			for try := 0; try < 4; try++ {
 				c.Addr = GenForgedAddr(t, fmt.Sprintf("%s.a%d", l, try), s.Prefixes)
